@@ -50,25 +50,27 @@ type waiter struct {
 }
 
 type director struct {
-	sc        *Scenario
-	runner    *app.ProjectRunner
-	mu        sync.Mutex
-	rng       *rand.Rand
-	steps     []*stepState
-	evCount   map[string]int
-	gateCount map[string]int
-	gateHits  map[string]int
-	waiters   []*waiter
-	fails     map[string]int // consecutive probe failures per process (current launch)
-	waiting   map[int64]string // instance -> condition it is currently blocked on
-	apiSeq    atomic.Int64
-	inflight  atomic.Int64
-	opsWG     sync.WaitGroup
-	heldOK    int
-	heldTO    int
-	stepsRun  int
-	stopping  atomic.Bool
-	panicked  atomic.Bool
+	sc         *Scenario
+	runner     *app.ProjectRunner
+	mu         sync.Mutex
+	rng        *rand.Rand
+	steps      []*stepState
+	evCount    map[string]int
+	gateCount  map[string]int
+	gateHits   map[string]int
+	waiters    []*waiter
+	fails      map[string]int // consecutive probe failures per process and probe kind
+	probeEpoch map[string]string
+	probeMu    sync.Mutex
+	waiting    map[int64]string // instance -> condition it is currently blocked on
+	apiSeq     atomic.Int64
+	inflight   atomic.Int64
+	opsWG      sync.WaitGroup
+	heldOK     int
+	heldTO     int
+	stepsRun   int
+	stopping   atomic.Bool
+	panicked   atomic.Bool
 }
 
 // panicSite returns the innermost process-compose function on the panicking stack.
@@ -283,8 +285,6 @@ func (d *director) onEvent(ev string, p string, i int64, f map[string]any) {
 	d.evCount[key]++
 	n := d.evCount[key]
 	switch ev {
-	case "Launch":
-		d.fails[p] = 0
 	case "DepResolved":
 		if ki, _ := f["ki"].(int64); ki != 0 {
 			d.waiting[i], _ = f["cond"].(string)
@@ -393,26 +393,40 @@ func (d *director) doOp(op Op) {
 		err := r.ShutDownProject()
 		tracer.Emit("ApiEnd", "", 0, "id", id, "ok", err == nil, "err", errStr(err))
 	case "probe":
+		kind := "ready"
+		if op.Live {
+			kind = "live"
+		}
+		if !op.Late && !fakecmd.AliveProc(op.P) {
+			return // probes only run while the command is alive (late: a completion arriving after the end)
+		}
+		// completions of one check are serial in go-health; its consecutive-failure counter is reset when
+		// the checks are stopped, and a completion arriving while the prober is stopped is dropped
+		d.probeMu.Lock()
+		defer d.probeMu.Unlock()
+		pid, ep := r.VerifProberStopEpoch(op.P, kind)
+		epoch := fmt.Sprintf("%s/%d", pid, ep)
 		d.mu.Lock()
-		fails := d.fails[op.P]
+		if epoch != d.probeEpoch[op.P+kind] {
+			d.fails[op.P+kind] = 0
+			d.probeEpoch[op.P+kind] = epoch
+		}
+		fails := d.fails[op.P+kind]
 		if op.Ok {
 			fails = 0
 		} else {
 			fails++
 		}
-		d.fails[op.P] = fails
 		d.mu.Unlock()
-		kind := "ready"
-		if op.Live {
-			kind = "live"
-		}
-		if !fakecmd.AliveProc(op.P) {
-			return // probes only run while the command is alive
-		}
 		delivered := r.VerifInjectProbe(op.P, kind, op.Ok, fails, "scripted probe failure")
+		if delivered {
+			d.mu.Lock()
+			d.fails[op.P+kind] = fails
+			d.mu.Unlock()
+		}
 		if delivered && kind == "ready" {
 			if st, err := r.GetProcessState(op.P); err == nil {
-				tracer.Emit("ProbeResult", op.P, 0, "ok", op.Ok, "fails", fails, "health", st.Health, "status", st.Status)
+				tracer.Emit("ProbeResult", op.P, 0, "ok", op.Ok, "fails", fails, "health", st.Health, "status", st.Status, "late", op.Late)
 			}
 		}
 	case "observe":
@@ -444,13 +458,14 @@ func Run(sc *Scenario) *Result {
 	fakecmd.Reset()
 	res := &Result{}
 	d := &director{
-		sc:        sc,
-		rng:       rand.New(rand.NewSource(sc.Seed ^ 0x5eed)),
-		evCount:   map[string]int{},
-		gateCount: map[string]int{},
-		gateHits:  map[string]int{},
-		fails:     map[string]int{},
-		waiting:   map[int64]string{},
+		sc:         sc,
+		rng:        rand.New(rand.NewSource(sc.Seed ^ 0x5eed)),
+		evCount:    map[string]int{},
+		gateCount:  map[string]int{},
+		gateHits:   map[string]int{},
+		fails:      map[string]int{},
+		probeEpoch: map[string]string{},
+		waiting:    map[int64]string{},
 	}
 	for _, st := range sc.Steps {
 		d.steps = append(d.steps, &stepState{Step: st})
